@@ -124,7 +124,12 @@ class C14:
         reg = case.get("register", [])
         decl = strip_registered(schema, set(reg))
         pre = [["setvalidate", 1, hx(p), 1] for p in reg]
+        pre_text = case.get("pre_text")
+        if pre_text is not None:
+            pre = [["parse_buf", 1, hx(pre_text)]] + pre      # instances exist before the callbacks are registered
         m0 = Model(schema, flags)
+        if pre_text is not None:
+            m0.parse(pre_text)
         base0 = m0.cbseq
         e0 = m0.parse(text)
         if e0.get("grey"):
@@ -139,6 +144,8 @@ class C14:
         crashed_already = [False]
         for k, rs in zip(ks, res):
             m = Model(schema, flags)
+            if pre_text is not None:
+                m.parse(pre_text)
             init_log = len(m.cblog)
             m.cbseq = 0
             m.fail_at = k
@@ -276,8 +283,21 @@ class C14:
             return {"schema": sc, "flags": flags, "tokens": toks, "register": reg}
         return case()
 
+    def late_registration_cases(self):
+        """the validation callback is registered by schema path while instances of the multi section exist already: instances
+        created afterwards must be validated (the first text only creates instances without touching the options)"""
+        import c07
+        out = []
+        for pre_text, text, reg in (
+                ("vs { }\nvs { }\n", "vs { x = 5 l = {a, b} }\nvs { in t { s = q } }\n", ["vs|x", "vs|l", "vs|in|s", "vs|in", "vs"]),
+                ("vs { in t1 { } }\n", "vs { in t2 { s = zz } x = 3 }\n", ["vs|in|s", "vs|x"]),
+                ("single { }\n", "single { y = 4 }\nvs { x = 1 }\n", ["single|y", "vs|x"])):
+            out.append({"schema": "c14", "flags": 0, "tokens": [["raw", text]], "register": reg, "pre_text": pre_text})
+        return out
+
     def run(self, r):
         r.run_cases(self.setter_cases(), chunksize=4)
+        r.run_cases(self.late_registration_cases(), chunksize=1)
         r.run_hypothesis(12000 if r.tier == "quick" else 200000)
 
 
